@@ -51,6 +51,16 @@ CLAIMED = {
         "Trusted: Lean kernel + standard axioms; T-arith translator (validated against the Python function on 300 inputs per run); sqlglot's equi/filter split of a rule is an input.",
         "DESIGN.md §6 C14",
     ),
+    "C03": (
+        "Lean 4 theorems about a model of expectation_maximisation.py / em_training_session.py whose E-step is the C02 Score model: the SQL-shaped M-step (GROUP BY gamma, drop gamma=-1, window "
+        "normalisation) equals the textbook weighted frequencies, new m/u of observed levels sum to 1, lambda' = sum p n / sum n, unobserved levels get the placeholder, session- and level-level fixed "
+        "parameters do not move, pattern-count path = row-wise path, starting prior = prior odds x Bayes factors of the chosen exact-match levels, soundness of the greedy level choice, Python's median "
+        "(order-independent); observed-data log-likelihood never decreases (Properties/C03Likelihood.lean, abstract mixture EM step). Tie: EVERY iteration of EVERY real training session is replayed one "
+        "step at a time through the compiled model (all m, u, lambda, placeholders, stop/continue decision), plus deactivated comparisons, starting prior and medians; textbook EM + log-likelihood oracle.",
+        "Trusted: Lean kernel + standard axioms, Mathlib real analysis; floating point (1e-9, one-step replay so no accumulation); level conditions and term frequencies computed by the harness. "
+        "loglik_mono is proved for the abstract EM step with the same formulas; the bridge from Model/EM.step to it is stated in DESIGN.md as partial.",
+        "DESIGN.md §6 C03",
+    ),
 }
 PENDING_REASON = "check not built yet (model/theorems/correspondence under construction per DESIGN.md §10b); not claimed until all three exist"
 
